@@ -695,6 +695,25 @@ func (s Emitter) WriteExpression(output io.Writer, expression cypher.Expression)
 		}
 
 	case *cypher.KindMatcher:
+		if typedExpression.IsExclusive && len(typedExpression.Kinds) > 1 {
+			// All-of kind test: n:A:B
+			if err := s.WriteExpression(output, typedExpression.Reference); err != nil {
+				return err
+			}
+
+			for _, matcher := range typedExpression.Kinds {
+				if _, err := io.WriteString(output, ":"); err != nil {
+					return err
+				}
+
+				if _, err := io.WriteString(output, matcher.String()); err != nil {
+					return err
+				}
+			}
+
+			return nil
+		}
+
 		if len(typedExpression.Kinds) > 1 {
 			if _, err := io.WriteString(output, "("); err != nil {
 				return err
